@@ -1,7 +1,13 @@
 import EpgVerif.Props.C11
+import EpgVerif.Tie.SeqSites
+import EpgVerif.Props.C11Run
 open EpgVerif.Props.C11
 #print axioms expression_derive_exact
 #print axioms subst_eval
 #print axioms virtual_table_wellbound
 #print axioms EpgVerif.Tie.mathTable_ok
 #print axioms EpgVerif.SE.derive_correct
+#print axioms EpgVerif.Tie.SeqSites.sites_as_modelled
+#print axioms sequence_jacobian_exact
+#print axioms virtT
+#print axioms virtE
